@@ -46,6 +46,11 @@ BREAKS = [
     dict(name="c25-immutable-cancel-drops-last-lease", prop="C25", file=IM,
          old="            leases = [l for l in leases if l] # remove the cancelled leases\n",
          new="            leases = [l for l in leases if l][:-1] or [l for l in leases if l]\n"),
+    dict(name="c25-saturated-length-field-trusted", prop="C25", file=IM,
+         old="            if (data_length < 2**32 - 1 and\n", new="            if (data_length < 2**32 and\n"),
+    dict(name="c25-lease-offset-always-from-length-field", prop="C25", file=IM,
+         old="            if (data_length < 2**32 - 1 and\n                0xc + data_length + num_leases * self.LEASE_SIZE <= filesize):",
+         new="            if (True and\n                0xc + data_length + num_leases * self.LEASE_SIZE <= filesize):"),
 ]
 
 # not run by tools/selftest.py (it reads BREAKS only): equivalent mutants, verified NOT caught, by design
